@@ -2,7 +2,7 @@
    equate it with (ExtrOcamlBasic only; no Extract Constant). *)
 From Coq Require Extraction.
 From Coq Require Import ExtrOcamlBasic.
-From LibFtp Require Import Bytes Decimal Reply Typed Endpoint Ascii Framing FramingSpec Cmdline DataConn Client.
+From LibFtp Require Import Bytes Decimal Reply Typed Endpoint Ascii Framing FramingSpec Cmdline DataConn Client App.
 Extraction Language OCaml.
 Set Extraction Optimize.
 Extraction "model.ml"
@@ -15,4 +15,5 @@ Extraction "model.ml"
   (* Framing *) recv_n fixed_cfg pinned_cfg find_eol strip_eol render expected wf_reply
   (* Cmdline *) parse_command verb_name render_args lower all_commands
   (* Client *)  steps step init_world held data_recv data_send
+  (* App *)     run_main app_init
   (* Typed *)   parse_size parse_datetime parse_file_list is_time_val spec_file_list.
